@@ -10,6 +10,12 @@ def make_scenarios(ctx, count, nops):
         rng = G.rng_for(ctx.seed, "C16", i)
         macs = G.distinct_macs(rng, 8)
         gens = rng.sample([0, 1, 2, 0x00FF, 0xFF00, 0xFFFF, 0x1234], 3)
+        if i % 3 == 1:
+            # neighbouring keys: addresses that differ from a base address in exactly one byte (low or high bit),
+            # generations that differ in one byte - a key comparison that drops a byte shows up as a collision
+            basem = macs[0]
+            macs = [basem] + [basem[:p] + bytes([basem[p] ^ x]) + basem[p + 1:] for p in range(6) for x in (0x01, 0x80)]
+            gens = [0x0101, 0x0100, 0x0001]
         keys = rng.sample([(m, g) for m in macs for g in gens], rng.randint(20, 24))
         style = rng.choice(["fill", "churn", "expiry"])
         ops = []
